@@ -116,5 +116,11 @@ def run(check, ctx):
     from . import c_modes
     c_modes.mode_tables(check, ctx, ("ctr", "cfb", "ofb", "cbc", "ecb", "cbc-partial", "ecb-partial"))
     check.floor("K-sym", 7)
-    check.undecided.append("the block primitives themselves (AES/DES/... round functions and tables), GHASH/OCB/Poly1305 "
+    # the block/stream primitives on the standards' published vectors, key-length dependent structure
+    from . import c_kat
+    c_kat.kat_tables(check, ctx)
+    # ChaCha20: every released byte is the RFC 8439 key stream of the caller's position (seek/encrypt histories)
+    from . import c_chacha
+    c_chacha.chacha_tables(check, ctx)
+    check.undecided.append("the block primitives beyond the published vectors (AES/DES/CAST/Blowfish/ARC2/ARC4), Salsa20, GHASH/OCB "
                            "arithmetic in C; mode geometries outside the enumerated table")
